@@ -3015,7 +3015,10 @@ func (b *IPRouteBody) decodeFromBytes(data []byte, version uint8, software Softw
 	}
 
 	b.backupNexthops = []Nexthop{} // backupNexthops is added in frr7.4
-	if b.Message&messageBackupNexthops.ToEach(version, software) > 0 {
+	// Before frr7.4 the same bit (0x40) is MESSAGE_LABEL: serialize only writes
+	// backup nexthops for frr7.4 and newer, so only those may be read here.
+	if version == 6 && software.name == "frr" && software.version >= 7.4 &&
+		b.Message&messageBackupNexthops.ToEach(version, software) > 0 {
 		if rest < pos {
 			return errors.New("IPRouteBody backupnexthops data length is too short")
 		}
